@@ -362,10 +362,22 @@ class JokerPrior:
 
         if return_logprobs:
             # raise NotImplementedError("This feature has been disabled in v1.3")
+            from pytensor.graph.replace import vectorize_graph
+
+            # The prior of one parameter may depend on other sampled parameters
+            # (e.g. K | P, e): evaluate each log-density at the sampled values of
+            # those parameters, row by row, not at a fresh random draw of them.
+            sampled = {
+                p: pt.as_tensor_variable(raw_samples[name])
+                for name, p in zip(par_names, par_list)
+            }
             logp = []
             for par in sub_pars.values():
                 try:
-                    _logp = pm.logp(par, raw_samples[par.name]).eval()
+                    value = par.type()
+                    replace = {k: v for k, v in sampled.items() if k is not par}
+                    replace[value] = sampled[par]
+                    _logp = vectorize_graph(pm.logp(par, value), replace=replace).eval()
                 except Exception:
                     logger.warning(
                         f"Cannot auto-compute log-prior value for parameter {par}"
